@@ -3,6 +3,7 @@ package engines
 import (
 	"errors"
 	"fmt"
+	"os"
 	"sort"
 	"strconv"
 	"strings"
@@ -69,9 +70,9 @@ type ksReq struct {
 }
 
 type ksObs struct {
-	mw      map[string]string // at entry of the first middleware
-	h       map[string]string // in the final handler
-	reached bool
+	mw       map[string]string // at entry of the first middleware
+	h        map[string]string // in the final handler
+	reached  bool
 	panicked bool
 }
 
@@ -83,20 +84,21 @@ type kept struct {
 }
 
 type ksWorld struct {
-	s      *simrt.Sim
-	reqs   []*ksReq
-	obsOf  func(id int) *ksObs
-	yield  bool
+	s         *simrt.Sim
+	reqs      []*ksReq
+	obsOf     func(id int) *ksObs
+	yield     bool
 	immutMode bool
 	immutable bool
-	kept   []*kept
-	unstable []string
+	kept      []*kept
+	unstable  []string
 }
 
 type bindQ struct {
-	Q  string   `query:"q"`
-	N  int      `query:"n"`
-	L  []string `query:"l"`
+	Token string   `query:"token"`
+	Q     string   `query:"q"`
+	N     int      `query:"n"`
+	L     []string `query:"l"`
 }
 type bindH struct {
 	A string `header:"X-A"`
@@ -111,6 +113,26 @@ type bindF struct {
 type bindJ struct {
 	Name string `json:"name"`
 	Age  int    `json:"age"`
+}
+
+// files the kitchen-sink app renders / sends: written once per process
+var (
+	ksFilesOnce sync.Once
+	ksTmplPath  string
+	ksFilePath  string
+)
+
+func ksFiles() {
+	ksFilesOnce.Do(func() {
+		dir, err := os.MkdirTemp("", "vsim-iso-")
+		if err != nil {
+			panic(err)
+		}
+		ksTmplPath = dir + "/binds.tmpl"
+		ksFilePath = dir + "/static-file-with-a-rather-long-name-so-that-it-beats-short-urls.txt"
+		_ = os.WriteFile(ksTmplPath, []byte("{{range $k, $v := .}}{{$k}}={{$v}};{{end}}"), 0o644)
+		_ = os.WriteFile(ksFilePath, []byte("static file content\n"), 0o644)
+	})
 }
 
 func sortedMap(m map[string]string) string {
@@ -353,6 +375,20 @@ func (w *ksWorld) build(cfg fiber.Config) *fiber.App {
 	app.Get("/fail", func(c fiber.Ctx) error { final(c, nil); return fiber.NewError(418, "teapot") })
 	app.Get("/err", func(c fiber.Ctx) error { final(c, nil); return errors.New("plain") })
 	app.Get("/panic", func(c fiber.Ctx) error { final(c, nil); panic("handler panic") })
+	app.Get("/view", func(c fiber.Ctx) error {
+		final(c, nil)
+		if c.Query("bind") != "" {
+			if err := c.ViewBind(fiber.Map{"user": "user-of-" + strings.Clone(c.Get("X-Op")), "role": strings.Clone(c.Query("bind"))}); err != nil {
+				return err
+			}
+		}
+		// no template engine configured: the name is a file path
+		return c.Render(ksTmplPath, fiber.Map{"page": "p" + strings.Clone(c.Get("X-Op"))})
+	})
+	app.Get("/file", func(c fiber.Ctx) error {
+		final(c, nil)
+		return c.SendFile(ksFilePath)
+	})
 	app.Get("/hdr", func(c fiber.Ctx) error {
 		final(c, nil)
 		c.Set("X-Custom", "c"+c.Get("X-Op"))
@@ -400,7 +436,20 @@ func ksGenerate(s *simrt.Sim, nconn int, flashValid string) []*ksReq {
 		method, path, body, ctype := "GET", "/", "", ""
 		hdr := [][2]string{{"X-Op", strconv.Itoa(i)}}
 		cookie := ""
-		switch k := s.Draw(13); k {
+		switch k := s.Draw(16); k {
+		case 13:
+			r.kind = "view"
+			path = "/view"
+			if s.Chance(500) {
+				r.kind = "view-bind"
+				path = "/view?bind=" + simrt.PickS(s, "admin", "guest")
+			}
+		case 14:
+			r.kind = "file"
+			path = "/file?pad=" + strings.Repeat("a", s.Range(0, 120))
+		case 15:
+			r.kind = "unknown-method"
+			method, path = "BREW", "/coffee"
 		case 0:
 			r.kind = "user"
 			a, b := seg(), seg()
@@ -434,6 +483,11 @@ func ksGenerate(s *simrt.Sim, nconn int, flashValid string) []*ksReq {
 			case 3:
 				r.kind = "bind-auto-bad"
 				path = "/bind-auto?q=x&n=not-a-number"
+			}
+			if s.Chance(200) {
+				// valid pairs followed by a key with an unbalanced bracket: binding aborts half way
+				r.kind = "bind-query-bracket"
+				path = "/bind?q=x&token=SECRET-" + strconv.Itoa(i) + "&filter[=y"
 			}
 		case 5:
 			r.kind = "bind-form"
@@ -521,6 +575,9 @@ func ksGenerate(s *simrt.Sim, nconn int, flashValid string) []*ksReq {
 		if ctype != "" {
 			hdr = append(hdr, [2]string{"Content-Type", ctype})
 		}
+		if body != "" && s.Chance(250) {
+			hdr = append(hdr, [2]string{"Content-Encoding", "identity"}) // a token no decoder handles: the body is used as is
+		}
 		if s.Chance(300) {
 			hdr = append(hdr, [2]string{"Accept", simrt.PickS(s, "text/html", "application/json", "*/*;q=0.1, text/html")})
 		}
@@ -558,6 +615,7 @@ func ksRun(s *simrt.Sim, info *harness.RunInfo, immutMode bool) {
 	cfgLine := fmt.Sprintf("immutMode=%v immutable=%v caseSensitive=%v strict=%v unescape=%v proxyHeader=%q ipValidation=%v conns=%d preempt=%d", immutMode, cfg.Immutable, cfg.CaseSensitive, cfg.StrictRouting, cfg.UnescapePath, cfg.ProxyHeader, cfg.EnableIPValidation, nconn, preempt)
 	s.Logf("cfg %s", cfgLine)
 
+	ksFiles()
 	w := &ksWorld{s: s, immutMode: immutMode, immutable: cfg.Immutable}
 	// a valid flash cookie value, as a server issues it
 	flashValid := ""
@@ -681,6 +739,18 @@ func ksRun(s *simrt.Sim, info *harness.RunInfo, immutMode bool) {
 	}
 	if reuse {
 		s.Count("probe_context_reused_by_other_kind")
+	}
+	for _, r := range w.reqs {
+		switch {
+		case strings.HasPrefix(r.kind, "view") && strings.HasPrefix(r.gotRes, "200|") && strings.Contains(r.gotRes, "page=p"):
+			s.Count("probe_view_rendered_with_bindings")
+		case r.kind == "file" && strings.HasPrefix(r.gotRes, "200|"):
+			s.Count("probe_file_sent")
+		case r.kind == "unknown-method" && strings.HasPrefix(r.gotRes, "501|"):
+			s.Count("probe_unknown_method_501")
+		case r.kind == "show-valid-flash" && r.got != nil && r.got.h["Messages"] != "":
+			s.Count("probe_flash_messages_delivered")
+		}
 	}
 	info.StateHash = h.h
 	info.Nontrivial = reuse
